@@ -125,6 +125,7 @@ func genFaultScn(rng *rand.Rand, maxN int, phase time.Duration) faultScn {
 	}
 	sc.Actions = append(sc.Actions, extra...)
 	sortActions(sc.Actions)
+	sc.rareConfig(rng)
 	return sc
 }
 
